@@ -480,6 +480,17 @@ func c20StrictlyCausal(recs []*c20rec) bool {
 	return true
 }
 
+func c20DropOutFiles(ai *sp.AuditInfo, seen map[*sp.AuditInfo]bool) {
+	if ai == nil || seen[ai] {
+		return
+	}
+	seen[ai] = true
+	ai.OutFiles = map[string]string{}
+	for _, u := range ai.Upstream {
+		c20DropOutFiles(u, seen)
+	}
+}
+
 // auditTree: the records as scipipe's own structure (shared records = shared pointers).
 func c20AuditTree(recs []*c20rec) *sp.AuditInfo {
 	ais := make([]*sp.AuditInfo, len(recs))
@@ -1124,6 +1135,11 @@ func (r *c20run) enumerate() {
 			in := filepath.Join(dir, fmt.Sprintf("k%d.%s.audit.json", k, recs[0].outs[0]))
 			ins = append(ins, in)
 			tree := c20AuditTree(recs)
+			if c.naming == 1 && c.pmode == 0 {
+				// the record layout of older scipipe versions: tasks without an OutFiles entry
+				// (the fixture in cmd/scipipe/main_test.go is of that kind)
+				c20DropOutFiles(tree, map[*sp.AuditInfo]bool{})
+			}
 			// written by scipipe itself; with a relative path from inside the batch directory (for an
 			// absolute path FileIP.createDirs would create "__fsroot__/..." below the working directory)
 			os.Chdir(dir)
